@@ -26,7 +26,7 @@ NodeOK(n, o) ==
     /\ n.enumBad = 0            \* enum fields hold declared numbers
     /\ n.badUtf8 = 0            \* strings are valid UTF-8
     /\ n.tsBad = 0 /\ n.durBad = 0   \* Timestamp / Duration valid
-    /\ (o.any => n.anyBad = 0)  \* Any (when type URLs are configured): resolvable URL, value decodes as that type
+    /\ n.anyBad = 0  \* Any (when type URLs are configured): resolvable URL, value decodes as that type
     /\ n.maskBad = 0            \* FieldMask carries the drawn paths (1..5, well-formed)
     /\ (o.mapped => n.unmapped = 0)                          \* field mappers honoured
     /\ ((o.noempty /\ n.depth < Limit) => n.emptyLists = 0)
